@@ -145,6 +145,7 @@ ImplRel(pl, sc, x, i0) ==
 \* a DualNamePrefix, or a MultiNamePrefix and its SegCount byte, precede the segments and are stepped over
 \* explicitly: a SegCount in 'A'..'Z' / '_' (65+ segments) must not be taken for a name character
 Hdr(x, i) == IF Bug = "SegCountAsName" THEN i
+             ELSE IF Bug = "HdrNoLengthGuard" THEN (IF x[i] = 46 THEN i + 1 ELSE IF x[i] = 47 THEN i + 2 ELSE i)
              ELSE IF i + 1 <= Len(x) /\ x[i] = 46 THEN i + 1 ELSE IF i + 2 <= Len(x) /\ x[i] = 47 THEN i + 2 ELSE i
 ImplRelTop(pl, sc, x, i) == IF i > Len(x) THEN sc ELSE ImplRel(pl, sc, x, Hdr(x, i))
 ImplCaret(pl, sc, x, i) ==
@@ -194,7 +195,8 @@ Bodies ==
   \cup {a \o b \o c : a \in {A4}, b \in Segs, c \in Segs}
   \cup {<<65>>, <<65, 95>>, <<65, 95, 95>>, A4 \o <<66>>, A4 \o <<66, 95, 95>>, <<46>> \o A4 \o <<66, 95>>,  \* too-short names
         <<47, 2>> \o A4 \o <<66, 95, 95>>, <<47, 65, 95, 95, 95>>}
-  \cup {<<47, 2>> \o A4, <<47, 0>>, <<47>>, <<46>>, <<46>> \o A4, A4 \o <<46>> \o B4, <<0>>, A4 \o <<0>>,   \* malformed
+  \cup {<<46>>, <<47>>, <<47, 0>>, <<47, 1>>, <<47, 2>>, <<47, 65>>}                                         \* prefix byte(s), no name: not-found
+  \cup {<<47, 2>> \o A4, <<46>> \o A4, <<46>> \o B4, <<47, 2>> \o B4, A4 \o <<46>> \o B4, <<0>>, A4 \o <<0>>,   \* malformed
         <<97, 95, 95, 95>>, <<49, 95, 95, 95>>, A4 \o <<92>>, <<47, 1>> \o A4 \o B4}
 Exprs == {p \o b : p \in Prefixes, b \in Bodies}
 
